@@ -42,7 +42,6 @@ from ipv8.messaging.anonymization.community import TunnelCommunity
 from ipv8.messaging.anonymization.endpoint import TunnelEndpoint
 from ipv8.messaging.anonymization.hidden_services import HiddenTunnelCommunity
 from ipv8.messaging.anonymization.pex import PexCommunity, PexSettings
-from ipv8.messaging.anonymization.tunnel import CIRCUIT_TYPE_IP_SEEDER
 from ipv8.messaging.interfaces.endpoint import Endpoint
 from ipv8.peer import Peer
 from ipv8.peerdiscovery.community import DiscoveryCommunity
@@ -762,8 +761,6 @@ def pre_state(ctx: Ctx) -> tuple:
 
 
 class _ProbeCache(NumberCache):
-    ran: list = []
-
     def __init__(self, rc, rec: Rec) -> None:  # noqa: ANN001
         super().__init__(rc, "c11-probe", 11)
         self.rec = rec
@@ -1292,6 +1289,7 @@ def run(ctx: core.Ctx) -> core.Report:
     scns = [s for s in all_scenarios() if ctx.thorough or s.quick]
     violations: list[core.Violation] = []
     per = []
+    samples: list = []
     items = []
     points = 0
     for s in scns:
@@ -1304,6 +1302,10 @@ def run(ctx: core.Ctx) -> core.Report:
         for e in evs:
             kinds[e[0]] = kinds.get(e[0], 0) + 1
         per.append({"scenario": s.name, "events": len(evs), "kinds": kinds, "valid_msg_ids_captured": len(lib)})
+        if len(samples) < 3:
+            k = (len(evs) * (len(samples) + 1)) // 4
+            samples.append({"scenario": s.name, "unload_after_event": k, "variant": s.variants()[len(samples) % 2],
+                            "history": [list(e) for e in evs[:k]]})
         for k in range(len(evs) + 1):
             for v in s.variants():
                 items.append((s.name, k, v))
@@ -1321,6 +1323,11 @@ def run(ctx: core.Ctx) -> core.Report:
             if key not in seen_keys:
                 seen_keys[key] = core.Violation(key, what, {"kind": "unload", "scenario": scn_name, "k": k,
                                                            "variant": variant, "seed": _SEED, "thorough": _THOROUGH})
+    broken = [v for key, v in seen_keys.items() if key.startswith("harness:")]
+    if broken:
+        for v in broken[:3]:
+            core.eprint(f"C11: harness failure {v.key}: {v.what[:1500]}")
+        raise SystemExit(2)
     violations.extend(seen_keys.values())
 
     # TaskManager alone
@@ -1354,7 +1361,7 @@ def run(ctx: core.Ctx) -> core.Report:
                 "unload point, kind of the last event, whether unload sent / raced / left traffic in flight) "
                 "observations + distinct (set of coroutine log kinds, log length) outcomes summed over TaskManager "
                 "prefix classes",
-        "samples": per[:3] + per[-2:],
+        "samples": [*samples, {"taskmanager_sequence": [list(e) for e in prefixes[len(prefixes) // 2]] + [["it"], ["sd"]]}],
         "exhaustive": True,
         "scenarios": per,
         "unload_points": points,
